@@ -24,15 +24,17 @@ from common import (ToolError, digest, log, read_ndjson, run_tlc, seed, split_ru
                     validate_trace)
 
 NEED_ACTIONS = ["MRead", "MPauseCheck", "MSetPE", "MGateEnter", "MAct", "MWrite", "MDone", "CRecv", "CGate", "CPE", "CGen",
-                "CDropPE", "CDropGen", "CWrite", "RResume", "Spont", "RStop", "Client", "Recv"]
-# deviation config -> invariant TLC must report as violated
+                "CDropPE", "CDropGen", "CWrite", "RResume", "RCycleBegin", "RCycleEnd", "Spont", "RStop", "Client", "Recv"]
+NEED_ACTIONS_INSPECT = ["MInspect", "MInspectLock"]
+# deviation config -> what TLC must report as violated
 MUST_VIOLATE = {
-    "MCDapStop_ascoded_gendrop": "NoLostStop",            # finding: stop.rs drops a Breakpoint stop and nothing resumes
-    "MCDapStop_ascoded_gate": "ResponseBeforeLaterStop",  # finding: stop_gate.enter() after continue_run()
-    "MCDapStop_noGate": "ResponseBeforeLaterStop",
-    "MCDapStop_dupStopped": "NoDuplicateStopped",
-    "MCDapStop_dropInverted": "NoLostStop",
-    "MCDapStop_stepNoResume": "NoLostStop",
+    "MCDapStop_ascoded_gendrop": "Invariant NoLostStop is violated",            # finding: stop.rs drops a Breakpoint stop and nothing resumes
+    "MCDapStop_ascoded_gate": "Invariant ResponseBeforeLaterStop is violated",  # finding: stop_gate.enter() after continue_run()
+    "MCDapStop_ascoded_inspect": "Temporal property EveryRequestAnswered was violated",  # finding: runtime mutex taken while the hook may wait
+    "MCDapStop_noGate": "Invariant ResponseBeforeLaterStop is violated",
+    "MCDapStop_dupStopped": "Invariant NoDuplicateStopped is violated",
+    "MCDapStop_dropInverted": "Invariant NoLostStop is violated",
+    "MCDapStop_stepNoResume": "Invariant NoLostStop is violated",
 }
 CHUNKS = 6
 RESUME = ("continue", "next", "stepIn", "stepOut")
@@ -46,16 +48,21 @@ def model_check(tier, result):
         for a in NEED_ACTIONS:
             if cov.get(a, 0) == 0:
                 raise ToolError(f"vacuous model run: action {a} never taken ({cov})")
+        insp = run_tlc("MCDapStop", "MCDapStop_inspect", workers=4, coverage=True, timeout=1800, tag="mc-c17dap-inspect")
+        for a in NEED_ACTIONS_INSPECT:
+            if insp.get("action_coverage", {}).get(a, 0) == 0:
+                raise ToolError(f"vacuous model run: action {a} never taken ({insp.get('action_coverage')})")
+            cov[a] = insp["action_coverage"][a]
         coded = run_tlc("MCDapStop", "MCDapStop_ascoded", workers=4, timeout=1800, tag="mc-c17dap-ascoded")
         refuted = {}
-        for dev, inv in MUST_VIOLATE.items():
+        for dev, msg in MUST_VIOLATE.items():
             r = run_tlc("MCDapStop", dev, workers=2, timeout=900, allow_violation=True, tag=f"mc-c17dap-{dev}")
-            if f"Invariant {inv} is violated" not in r["stdout"]:
-                raise ToolError(f"the deviation model {dev} does not violate {inv} (the invariant would be vacuous):\n{r['stdout'][-1500:]}")
-            refuted[dev] = inv
-        result.update(distinct=mc["distinct"] + coded["distinct"], generated=mc["generated"] + coded["generated"],
-                      model_distinct=mc["distinct"], ascoded_distinct=coded["distinct"], depth=mc["depth"],
-                      action_coverage={a: cov[a] for a in NEED_ACTIONS}, refuted=refuted, wall_s=round(mc["wall_s"], 1))
+            if msg not in r["stdout"]:
+                raise ToolError(f"the deviation model {dev} does not produce '{msg}' (the property would be vacuous):\n{r['stdout'][-1500:]}")
+            refuted[dev] = msg.split()[-3] if msg.startswith("Temporal") else msg.split()[1]
+        result.update(distinct=mc["distinct"] + coded["distinct"] + insp["distinct"], generated=mc["generated"] + coded["generated"] + insp["generated"],
+                      model_distinct=mc["distinct"], ascoded_distinct=coded["distinct"], inspect_distinct=insp["distinct"], depth=mc["depth"],
+                      action_coverage={a: cov[a] for a in NEED_ACTIONS + NEED_ACTIONS_INSPECT}, refuted=refuted, wall_s=round(mc["wall_s"], 1))
     except Exception as ex:  # re-raised by the caller
         result["error"] = ex
 
@@ -133,8 +140,8 @@ def gen_hostile(rng, sid):
 
 
 def gen_provocation(rng, sid, rounds):
-    """The client is stopped at a breakpoint on the loop body and sends, in ONE write, continue and a setBreakpoints
-    that installs the same breakpoint again: the next breakpoint stop races with the new generation."""
+    """Lost stop: the client is stopped at a breakpoint on a hot statement and sends, in ONE write, continue and a
+    setBreakpoints that installs the same breakpoint again: the next breakpoint stop races with the new generation."""
     hot = rng.choice([[2], [2], [3], [1, 2]])
     steps = [{"op": "wait", "ms": 300}]
     for _ in range(rounds):
@@ -142,7 +149,28 @@ def gen_provocation(rng, sid, rounds):
         steps.append({"op": "cond", "stopped": {"op": "seq", "steps": [req("continue", 1), req("setBreakpoints", ids=hot, gap=g)]}})
         steps.append({"op": "wait", "ms": 30})
         steps.append({"op": "quiesce", "ms": 10, "probe": False})
-    return {"id": sid, "kind": "provocation", "entry": False, "bps0": hot, "steps": steps}
+    return {"id": sid, "kind": "provocation-lost-stop", "entry": False, "bps0": hot, "steps": steps}
+
+
+def gen_provocation_order(rng, sid, rounds):
+    """Order on the wire: the adapter runs on one CPU and every thread but the main thread has a real-time priority, so
+    the cycle thread and the coordinator run as soon as the resuming action has woken them - before the main thread
+    gets to what follows the action.  The next stop is one statement away (breakpoint in the loop body)."""
+    steps = [{"op": "wait", "ms": 300}]
+    for i in range(rounds):
+        steps.append({"op": "cond", "stopped": req(rng.choice(["continue", "next", "stepIn"]), 1)})
+        steps.append({"op": "wait", "ms": 30})
+    return {"id": sid, "kind": "provocation-order", "entry": False, "bps0": [2], "steps": steps, "pin": 2 * sid + 1, "sched": "others-first"}
+
+
+def gen_provocation_inspect(rng, sid):
+    """Inspection request behind a continue in the same write, main thread first (one CPU, real-time priority): the
+    request finds no snapshot and asks for the runtime mutex in the middle of a cycle whose next statement is a
+    breakpoint."""
+    steps = [{"op": "wait", "ms": 300},
+             {"op": "cond", "stopped": {"op": "seq", "steps": [req("continue", 1), req("stackTrace", 1, gap=-1)]}},
+             {"op": "sync"}, {"op": "wait", "ms": 30}]
+    return {"id": sid, "kind": "provocation-inspect", "entry": False, "bps0": [2], "steps": steps, "pin": 2 * sid + 1, "sched": "main-first"}
 
 
 def from_model(hist, rng, sid):
@@ -171,6 +199,10 @@ def make_scripts(tier, work):
     if len(hists) < 20:
         raise ToolError(f"script export produced only {len(hists)} client histories")
     scripts = []
+    for _ in range(2 if q else 4):      # first: a wedged run costs the full response timeout
+        scripts.append(gen_provocation_inspect(rng, len(scripts)))
+    for _ in range(4 if q else 16):
+        scripts.append(gen_provocation_order(rng, len(scripts), 12))
     for _ in range(8 if q else 40):
         scripts.append(gen_provocation(rng, len(scripts), 25))
     for h in hists:
@@ -323,6 +355,7 @@ def dap_stage(rep, tier, work, replay_run=None):
         kinds[r[0].get("kind")] = kinds.get(r[0].get("kind"), 0) + 1
     return {
         "dap_model_states": mcres.get("model_distinct", 0), "dap_model_states_as_coded": mcres.get("ascoded_distinct", 0),
+        "dap_model_states_inspect": mcres.get("inspect_distinct", 0),
         "dap_model_transitions": mcres.get("generated", 0), "dap_model_depth": mcres.get("depth", 0),
         "dap_model_action_coverage": mcres.get("action_coverage", {}), "dap_deviation_models_refuted": mcres.get("refuted", {}),
         "dap_scripts": len(runs), "dap_scripts_by_kind": kinds, "dap_runs_accepted": len(accepted),
